@@ -203,7 +203,7 @@ func (t *trzszTransfer) connectToTunnel(connector func(int) net.Conn, uniqueID s
 	go func() {
 		defer t.tunnelInitWG.Done()
 
-		timeout := false
+		var timeout atomic.Bool
 		connChan := make(chan net.Conn, 1)
 		go func() {
 			defer close(connChan)
@@ -212,20 +212,20 @@ func (t *trzszTransfer) connectToTunnel(connector func(int) net.Conn, uniqueID s
 				connChan <- nil
 				return
 			}
-			if timeout {
+			if timeout.Load() {
 				conn.Close()
 				connChan <- nil
 				return
 			}
 			clientHello, serverHello := getHelloConstant(uniqueID, port)
-			if _, err := conn.Write([]byte(clientHello)); err != nil || timeout {
+			if _, err := conn.Write([]byte(clientHello)); err != nil || timeout.Load() {
 				conn.Close()
 				connChan <- nil
 				return
 			}
 			buf := make([]byte, 100)
 			n, err := conn.Read(buf)
-			if err != nil || string(buf[:n]) != serverHello || timeout {
+			if err != nil || string(buf[:n]) != serverHello || timeout.Load() {
 				conn.Close()
 				connChan <- nil
 				return
@@ -240,7 +240,7 @@ func (t *trzszTransfer) connectToTunnel(connector func(int) net.Conn, uniqueID s
 				wrapTransferInput(t, conn, true)
 			}
 		case <-time.After(time.Second):
-			timeout = true
+			timeout.Store(true)
 		}
 	}()
 }
